@@ -113,5 +113,41 @@ def fibreContribution (beta2 beta3 f refF len pmdCoef : α) : Contribution α :=
 /-- contribution of a ROADM (`roadm-pmd`, `roadm-pdl` of the internal path) or of an amplifier (`params.pmd/pdl`) -/
 def lumpedContribution (pmd pdl : α) : Contribution α := { cd := N(0), pmd := pmd, pdl := pdl, latency := N(0) }
 
+/-! ### a whole span -/
+
+/-- what `Fiber.__init__` keeps besides the `Gn.Fibre` coefficients -/
+structure Span (α : Type) where
+  fib : Fibre α
+  conIn : α                 -- [dB]
+  attIn : α                 -- [dB] padding
+  conOut : α                -- [dB]
+  lumped : List (α × α)     -- (position [m], linear loss) in the order of the description
+  pmdCoef : α               -- [s/sqrt(m)]
+
+/-- `Fiber.__init__`: every lumped-loss position (km) must lie strictly inside the fibre
+(`NetworkTopologyError` otherwise) -/
+def lumpedPositionsOk (lenM : α) (l : List (α × α)) : Bool :=
+  l.all (fun x => decide (N(0) < x.1) && decide (x.1 < N(1) / N(1000) * lenM))
+
+/-- `(position km, loss dB)` → `(position m, linear loss)` -/
+def mkLumped (l : List (α × α)) : List (α × α) := l.map (fun x => (x.1 * N(1000), lumpedLin x.2))
+
+/-- power of one channel after `Fiber.propagate` (Raman off); `none` = SpectrumError (loss table) -/
+def spanOut (s : Span α) (f p : α) : Option α :=
+  (alphaAt s.fib f).map (fun a => propagateP p s.conIn s.attIn a s.fib.len s.lumped s.conOut)
+
+/-- what the span adds to CD / PMD / PDL / latency of the channel at `f`; `beta3` is supplied for fibres with a
+dispersion table (numpy polyfit is not modelled), computed from the slope otherwise -/
+def spanContribution (s : Span α) (f : α) (beta3 : Option α) : Option (Contribution α) :=
+  (beta2At s.fib f).map (fun b2 =>
+    let b3 := match beta3 with
+      | some v => v
+      | none => beta3Scalar s.fib.slope f b2
+    fibreContribution b2 b3 f s.fib.refF s.fib.len s.pmdCoef)
+
+/-- `Fiber.loss` -/
+def spanLossDb (s : Span α) : Option α :=
+  (lossCoef s.fib s.fib.refF).map (fun c => lossDb c s.fib.len s.conIn s.conOut s.attIn (s.lumped.map (·.2)))
+
 end
 end Gnpy.Fiber
